@@ -155,11 +155,6 @@ theorem gen_shrink (E p osz oal nsz nal : Nat) (s : St)
     by_cases ho : rangesOverlap p ((s.a.cur E).ptr + delta) nsz = true <;>
       cases go <;> cases mo <;> simp_all [simS, Outcome.sim, Rs.copy_nonoverlapping, copyNonoverlapping]
 
-theorem validLayout_p2 {sz al : Nat} (h : validLayout sz al = true) : P2 al ∧ sz < USIZE := by
-  simp only [validLayout, Bool.and_eq_true, decide_eq_true_eq] at h
-  obtain ⟨⟨h1, h2⟩, h3⟩ := h
-  refine ⟨⟨h1, ?_⟩, ?_⟩ <;> unfold USIZE <;> omega
-
 theorem gen_grow (E p osz oal nsz nal : Nat) (s : St)
     (hM : P2 s.a.M) (hnal : P2 nal) (hnsz : nsz < USIZE)
     (hp : (s.a.cur E).ptr < USIZE) (hne : HeadNotStatic E s.a) :
